@@ -539,6 +539,29 @@ func c14R5(c *Ctx, r *Report, rule string) {
 								allowed, aKnown = strings.HasPrefix(h, "hit"), true
 							}
 						}
+						// a question whose class or type has no name is no valid question: with rules configured it is
+						// never matched, and the rules are consulted only about questions both of whose lookups succeeded
+						if nAllow+nDeny > 0 {
+							known := map[string]string{}
+							for _, a := range p.Assume {
+								for _, tbl := range []string{"dns.ClassToString[", "dns.TypeToString["} {
+									if strings.HasPrefix(a, "ok(") && strings.Contains(a, tbl) {
+										if _, seen := known[tbl]; !seen { // the first question's lookups
+											known[tbl] = a[strings.LastIndex(a, "=")+1:]
+										}
+									}
+								}
+							}
+							for _, tbl := range []string{"dns.ClassToString[", "dns.TypeToString["} {
+								what := map[string]string{"dns.ClassToString[": "class", "dns.TypeToString[": "type"}[tbl]
+								if known[tbl] == "false" && p.Ret[0].B {
+									problems = append(problems, "a question with an undefined "+what+" is matched")
+								}
+								if len(hits) > 0 && known[tbl] != "true" {
+									problems = append(problems, "the rules are consulted about a question whose "+what+" has no name (the lookup's result is not tested, or overwritten): a query with an undefined "+what+" is matched by rules that do not name one")
+								}
+							}
+						}
 						if len(hits) > 2 {
 							continue // more than one question
 						}
